@@ -47,6 +47,8 @@ SHAPES = {
     # payload entries named like keys of the metafile itself
     "DKEY": [["announce"], ["comment", "x.txt"], ["info"], ["piece layers", "z"], ["pieces"], ["private"], ["source", "main.c"],
              ["url-list"]],
+    # directories whose name is a proper prefix of a sibling's name (and siblings sorting around "/")
+    "DP": [["disc1", "a.bin"], ["disc1", "sub", "b.bin"], ["disc10", "c.bin"], ["disc1.nfo"], ["disc1-extra", "d.bin"], ["disc"]],
     "DW": [["w%03d" % k] if k % 5 else ["grp%d" % (k // 50), "w%03d" % k] for k in range(200)],    # hundreds of files
     "DDEEP": [["n%d" % d for d in range(40)] + ["leaf.bin"], ["n%d" % d for d in range(20)] + ["mid.bin"], ["top.bin"]],
     "DM": [["m%02d" % k] if k % 3 else ["g%d" % (k // 3), "m%02d" % k] for k in range(14)],   # many files
